@@ -42,3 +42,13 @@ Qed.
 Lemma sync_exact r : -32768 <= r <= 32767 ->
   sync_i16 r = r /\ f32_parts (sync_f32 r) = f32_parts (z32 r).
 Proof. exact (sync_exact_of chk r). Qed.
+
+(* the sync column does not depend on the whitening, whatever it is *)
+Lemma sync_whatever_wrot ncv col whiten r : ncv <= col -> -32768 <= r <= 32767 ->
+  out_word ncv col whiten r = r.
+Proof.
+  intros Hc Hr. unfold out_word.
+  replace ((0 <=? col) && (col <? ncv)) with false.
+  - exact (proj1 (sync_exact r Hr)).
+  - symmetry. apply andb_false_iff. right. apply Z.ltb_ge. exact Hc.
+Qed.
